@@ -13,10 +13,10 @@ Doms == [leafPortsK |-> {2, 1, 3, 0}, leaf2Inherit |-> {"Leaf", "", "Nope", "Lea
          link |-> {"L2", "", "L9", "L3"}, entry |-> {"Main", "Nope", "Mid", "Box"}, dupGen |-> {FALSE, TRUE}, selfConn |-> {FALSE, TRUE},
          nK |-> {2, 3, 0}, sideIdx |-> {0, 1, 2, Atom}, boxInArgs |-> {0, 1},
          gArg |-> {"Iface", "ImplMore", "ImplLess", "ImplGateLess", "ImplWrongSub"}, leaf1K |-> {Atom, 1}, fwdGen |-> {FALSE, TRUE},
-         redecl |-> {"no", "gate", "samegate", "sub"}, pairA |-> {"Leaf", "Leaf2"}]
+         redecl |-> {"no", "gate", "samegate", "sub"}, pairA |-> {"Leaf", "Leaf2"}, boxInherit |-> {"", "x"}]
 Base == [leafPortsK |-> 2, leaf2Inherit |-> "Leaf", boxArg |-> "Leaf2", boxArgsN |-> 1, midLsK |-> 2, nIdx |-> 1, connGate |-> "port",
          connSub |-> "m", link |-> "L2", entry |-> "Main", dupGen |-> FALSE, selfConn |-> FALSE, nK |-> 2, sideIdx |-> 0, boxInArgs |-> 0,
-         gArg |-> "Iface", leaf1K |-> Atom, fwdGen |-> FALSE, redecl |-> "no", pairA |-> "Leaf"]
+         gArg |-> "Iface", leaf1K |-> Atom, fwdGen |-> FALSE, redecl |-> "no", pairA |-> "Leaf", boxInherit |-> ""]
 Pts == DOMAIN Base
 Alt(f) == Doms[f] \ {Base[f]}
 (* the base description and every description that differs from it in at most MaxChanges (<= 3) variation points *)
@@ -46,7 +46,7 @@ DefOf(q) ==
      ImplWrongSub |-> Mod(<<>>, "", <<F("p", Atom)>>, <<Sub("inner", Atom, "Other", <<>>)>>, <<>>),   \* same submodule name, other type
      GBox  |-> Mod(<<Gen("y", "Iface")>>, "", <<>>, <<Sub("t", Atom, "y", <<>>)>>,
                    <<Con(<<F("t", Atom), F("inner", Atom), F("port", Atom)>>, <<F("t", Atom), F("p", Atom)>>, "")>>),
-     Box   |-> Mod(IF q.dupGen THEN <<Gen("x", "Leaf"), Gen("x", "Leaf")>> ELSE <<Gen("x", "Leaf")>>, "",
+     Box   |-> Mod(IF q.dupGen THEN <<Gen("x", "Leaf"), Gen("x", "Leaf")>> ELSE <<Gen("x", "Leaf")>>, q.boxInherit,    \* "x": a parent named like the module's own binding is no module
                    <<F("up", Atom)>>, <<Sub("in", Atom, "x", IF q.boxInArgs = 1 THEN <<"Leaf">> ELSE <<>>), Sub("in2", 2, "x", <<>>)>>
                    \o (IF q.fwdGen THEN <<Sub("fw", Atom, "GBox", <<"x">>)>> ELSE <<>>),    \* its own binding passed on as an argument
                    <<Con(<<F("up", Atom)>>, <<F("in", Atom), F("port", Atom)>>, ""),
